@@ -13,6 +13,7 @@ fn prop_def(id: &str) -> Option<PropDef> {
     Some(match id {
         "C07" => PropDef { parts: props::c07::parts(), rule: props::c07::RULE, assumptions: props::c07::ASSUMPTIONS, literal: None },
         "C13" => PropDef { parts: props::c13::parts(), rule: props::c13::RULE, assumptions: props::c13::ASSUMPTIONS, literal: Some(props::c13::check_literal) },
+        "C14" => PropDef { parts: props::c14::pure_parts(), rule: "tbd", assumptions: &[], literal: Some(props::c14::check_literal) },
         _ => return None,
     })
 }
